@@ -222,6 +222,20 @@ def header_mutations(sp):
             for pname, pos in places:
                 yield {'ent': 'header', 'cls': 'comment-body-cut', 'detail': pname, 'text': one[:pos] + '/*' + b}
                 yield {'ent': 'header', 'cls': 'comment-body-closed', 'detail': pname, 'text': one[:pos] + '/*' + b + '*/' + one[pos:]}
+    # every parameter of the three header entities replaced by each of the degenerate values (an empty list, a list holding an empty string, unset,
+    # nothing, a value of another kind) - the data section behind it is then read with whatever the header left
+    hdr_params = [('FILE_DESCRIPTION', ["('verif')", "'2;1'"]), ('FILE_NAME', ["'n'", "'2020-01-01T00:00:00'", "('au')", "('org')", "'pp'", "'os'", "'auth'"]), ('FILE_SCHEMA', ["('FK')"])]
+    for kw, params in hdr_params:
+        old_rec = '%s(%s);' % (kw, ','.join(params))
+        if old_rec not in full:
+            continue
+        for k in range(len(params)):
+            for deg in ('()', "('')", '$', '', '7', '(())', "'x'", '(7)', '($)', '*', "('a','b','c')"):
+                pp = list(params)
+                pp[k] = deg
+                yield {'ent': 'header', 'cls': 'header-parameter', 'detail': '%s[%d]=%s' % (kw, k, deg or 'nothing'), 'text': full.replace(old_rec, '%s(%s);' % (kw, ','.join(pp)))}
+        yield {'ent': 'header', 'cls': 'header-parameter', 'detail': '%s()' % kw, 'text': full.replace(old_rec, '%s();' % kw)}
+        yield {'ent': 'header', 'cls': 'header-parameter', 'detail': '%s missing' % kw, 'text': full.replace(old_rec, '')}
     yield {'ent': 'header', 'cls': 'empty-file', 'detail': '', 'text': ''}
     yield {'ent': 'header', 'cls': 'nul-bytes', 'detail': '', 'text': full.replace('DATA;', 'DATA;\x00\x00#1=TGT(\x001);')}
 
